@@ -130,11 +130,20 @@ def probe(acc, world, trace, meta, props):
                 viol("C17", "cancel requests differ from the tracked latest tasks of the selected targets", dict(args=args, requests=got, expected=want, exc=rc.exc), sel=label)
             rows_c = W.parse_status(rs.stdout) if rs.exit_code == 0 else {}
             pl_c = CW.ref_plan(w_c)
-            still = sorted(n for n in sel if rows_c.get(n) in ("submitted", "running"))
-            # a selected target is still in flight only if the reference says so too (e.g. resubmitted elsewhere) -- never after a cancel
-            if still or rows_c != pl_c["status"]:
-                viol("C17", "after cancel a selected target is still in flight / rows wrong", dict(args=args, rows=rows_c, expected=pl_c["status"], still=still,
-                                                                                                pool=w_c.pool["summary"]["tasks"], aliased=alias_info(world)), sel=label)
+            # a selected target whose own latest task was live before must not be live afterwards (judged on the pool's true table,
+            # not on gwf's rows, so that id aliasing after a restart — a known finding — cannot hide a lost cancel request)
+            still = []
+            for n in sel:
+                lt = LB.latest_task(world.pool, n)
+                if lt is None or lt[0] != world.pool["summary"]["incarnation"] or tracked.get(n) != lt[1]:
+                    continue
+                st_after = next((t["state"] for t in w_c.pool["summary"]["tasks"] if t["tid"] == lt[1]), None)
+                if st_after in ("SUBMITTED", "RUNNING"):
+                    still.append(n)
+            if still:
+                viol("C17", "a selected target's own live task survived the cancel", dict(args=args, still=sorted(still), requests=got, pool=w_c.pool["summary"]["tasks"]), sel=label)
+            elif rows_c != pl_c["status"]:
+                viol("C17", "rows wrong after cancel", dict(args=args, rows=rows_c, expected=pl_c["status"], pool=w_c.pool["summary"]["tasks"], aliased=alias_info(world)), sel=label)
             # nobody else's task was cancelled
             before = {t["tid"]: t["state"] for t in world.pool["summary"]["tasks"]}
             afterst = {t["tid"]: (t["state"], t["name"]) for t in w_c.pool["summary"]["tasks"]}
@@ -203,6 +212,16 @@ def run_local(ctx, module, prop, configs):
     for wfname, depth in configs:
         meta = dict(wf=wfname, backend="local")
         w0 = CW.init_world(wfname, "local")
-        e2.bfs(ctx, module, "local_expand", [w0], depth, chunk=2, meta=meta, props=(prop,))
+        inits = [w0]
+        if prop == "C17":
+            # also start from a history in which the first-defined target holds a high id of a previous pool incarnation
+            w = w0
+            first = w.wf.names()[0]
+            prefix = (("gwf", ["run"]), ("penv", "exit", first, 1), ("gwf", ["run"]), ("prestart",))
+            for a in prefix:
+                w, _ = CW.apply_action(w, a)
+                w.normalize()
+            inits.append((w, [list(a) for a in prefix]))
+        e2.bfs(ctx, module, "local_expand", inits, depth, chunk=2, meta=meta, props=(prop,))
         done.append(dict(meta, depth=depth))
     return done
